@@ -27,7 +27,8 @@ ASSUMPTIONS = ['tasks are shorter than flush\'s own 10 s per-task wait', 'a refu
 REQUIRE = {'tasks_tracked': 2000, 'flushes_checked': 300, 'flush_with_running_failure': 80, 'sends_checked': 1500,
            'failed_sends': 100, 'unconvertible': 100, 'post_close_submits': 200, 'yield_points': 2000,
            'submits_during_flush': 30, 'twin_handler_flushes': 40, 'backlog_flushes': 1,
-           'concurrent_second_flushes': 20, 'racing_submitters': 60}
+           'concurrent_second_flushes': 20, 'racing_submitters': 60,
+           'bursts_of_baseexception_tasks': 10, 'handovers_to_a_closed_pool': 40}
 
 
 def plan(tier, seed):
@@ -69,8 +70,15 @@ def case_tasks(seed, out, spec):
     r_sleep = {}
     futures = []
     accepted = []
+    # sometimes the run starts with a burst of tasks that end in a BaseException (as the project's own refusal does):
+    # the workers survive that, the tasks behind them still run
+    burst = r.randrange(2, 5) if (n >= 5 and r.chance(0.15)) else 0
+    if burst:
+        out.count('bursts_of_baseexception_tasks')
     for i in range(n):
         kind = r.pick(['ok', 'ok', 'ok', 'fail', 'slow', 'slow-fail', 'gated', 'gated-fail', 'gated-fail', 'base'])
+        if i < burst:
+            kind = 'base'
         r_sleep[i] = r.random() * 0.03
         plan_.append(kind)
         try:
@@ -187,14 +195,12 @@ def case_tasks(seed, out, spec):
         second_thread.start()
 
     with inject.LineInjector(lambda f: f.endswith(os.path.join('deep', 'task', '__init__.py')), yld) as inj:
-        if r.chance(0.3):
-            t = threading.Thread(target=do_flush)
-            t.start()
-            t.join(60)
-            hung = t.is_alive()
-        else:
-            do_flush()
-            hung = False
+        # (always on a thread of its own, from the submitting thread's point of view or not: a flush that cannot finish
+        # must not take the whole shard with it)
+        t = threading.Thread(target=do_flush)
+        t.start()
+        t.join(25)
+        hung = t.is_alive()
         release.set()
         helper.join(10)
         # let stragglers finish so the pool can be closed
@@ -208,7 +214,18 @@ def case_tasks(seed, out, spec):
     replay = replay_spec(spec, seed)
     witness = {'tasks': plan_, 'flush_raised': repr(result.get('raised')), 'unfinished_at_return': result.get('undone')}
     if hung:
-        out.inconc('C09 flush did not return within the watchdog (tasks %s)' % short(plan_))
+        # not a verdict by the clock: but if the pool has no live worker left while accepted tasks have not run, nothing
+        # will ever run them - that is a fact about the state, whatever the machine's speed
+        workers = list(getattr(handler._pool, '_threads', ()))
+        undone = [i for i, f in zip(accepted, futures) if not f.done()]
+        if workers and undone and not any(t.is_alive() for t in workers):
+            out.violation('delivery:workers-died', 'all %d delivery workers have died (after tasks that ended in a '
+                                                   'BaseException) while tasks %s were still waiting to run' % (
+                                                       len(workers), undone[:10]), witness, replay)
+            _close(handler)
+            return 'stop-shard'
+        else:
+            out.inconc('C09 flush did not return within the watchdog (tasks %s)' % short(plan_))
         _close(handler)
         return
     if result.get('raised') is not None:
@@ -499,6 +516,24 @@ def case_push(seed, out, spec):
                 out.violation('delivery:on-application-thread', 'snapshot %d was sent on the thread that handed it '
                                                                 'over' % i, witness, replay)
                 break
+    if r.chance(0.3):
+        # the worker pool no longer takes work (the interpreter is exiting, an atexit hook ran): a snapshot handed over
+        # now may be refused, it is never converted and sent on the application's own thread
+        grpc2 = fakegrpc.FakeGrpc()
+        handler2 = TaskHandler()
+        service2 = PushService(grpc2, handler2)
+        handler2._pool.shutdown(wait=True)
+        me = threading.get_ident()
+        refused = None
+        try:
+            service2.push_snapshot(mk_snapshot(900))
+        except BaseException as e:  # noqa
+            refused = type(e).__name__
+        mine = [c for c in grpc2.channel.calls if c[3] == me]
+        if mine:
+            out.violation('delivery:on-application-thread', 'with a worker pool that takes no more work the snapshot '
+                                                            'was sent on the thread that handed it over', witness, replay)
+        out.count('handovers_to_a_closed_pool')
     out.count('sends_checked', n)
     out.count('failed_sends', kinds.count('sendfail'))
     out.count('unconvertible', kinds.count('bad'))
@@ -516,7 +551,8 @@ def witness_base(kinds, nthreads):
 def run_shard(spec, out):
     for seed in spec_seeds(spec):
         if spec['kind'] == 'tasks':
-            case_tasks(seed, out, spec)
+            if case_tasks(seed, out, spec) == 'stop-shard':
+                break       # (every further case would wait for the same dead workers)
         elif spec['kind'] == 'twin':
             case_twin(seed, out, spec)
         elif spec['kind'] == 'backlog':
